@@ -1,6 +1,249 @@
-/- Line-protocol driver for engine `crash` — not built yet (stub). -/
+/- Judge for engine `crash` (C01, C02, C08): `case ==> observation` ↦ `ok` | `bad …`. -/
+import AxVerif.Model.Recovery
 namespace AxVerif.Drivers
+open AxVerif AxVerif.Durable AxVerif.Recovery
 
-def crash (_flags : List String) (_line : String) : String := "unimplemented"
+structure Group where
+  k : String
+  acked : List Nat
+  infl : Option Nat
+  phDone : String
+  phAll : String
+  openR : String
+  tables : String
+  again : String
+  probe : String
+
+def field (ws : List String) (name : String) : Option String :=
+  match ws.find? (fun w => w.startsWith (name ++ "=")) with
+  | some w => some ((w.drop (name.length + 1)).toString)
+  | none => none
+
+def parseGroup (s : String) : Option Group :=
+  let ws := words s
+  match field ws "k", field ws "acked", field ws "infl", field ws "open", field ws "T", field ws "again", field ws "probe" with
+  | some k, some a, some i, some o, some t, some ag, some p =>
+    let (pd, pa) := match (field ws "ph").map (·.splitOn "/") with
+      | some [d, a] => (d, a)
+      | _ => ("-", "-")
+    match parseNatList a with
+    | some acked => some { k := k, acked := acked, infl := i.toNat?, phDone := pd, phAll := pa,
+                           openR := o, tables := t, again := ag, probe := p }
+    | none => none
+  | _, _, _, _, _, _, _ => none
+
+def countChar (c : Char) (s : String) : Nat := (s.toList.filter (· == c)).length
+
+/-- is every element of `a` (with multiplicity) in `b`? -/
+def subList (a b : List String) : Bool := (b.foldl (fun acc x => acc.erase x) a).isEmpty
+
+/-- Tolerances = listed findings whose exact symptom the judge accepts when the flag is on. -/
+structure Tol where
+  flags : List String
+def Tol.has (t : Tol) (f : String) : Bool := t.flags.contains f
+
+def inflKind (ops : List Op) (g : Group) : String :=
+  match g.infl with
+  | none => "idle"
+  | some i => match ops[i]? with
+    | some .flush => "flush"
+    | some .vacuum => "vacuum"
+    | some (.auto _) => "auto"
+    | some (.batch _) => "batch"
+    | some (.sCommit _) => "commit"
+    | some (.sRollback _) => "rollback"
+    | some _ => "stmt"
+    | none => "?"
+
+def judgeGroup0 (crit : String) (ops : List Op) (ok : List Bool) (tables : List String) (g : Group) : Option String :=
+  if g.openR != "ok" then
+    if crit == "crash08" then some s!"k={g.k} open={g.openR}" else none
+  else
+    match parseDump g.tables with
+    | none => some s!"k={g.k} unparsable-dump"
+    | some got =>
+      -- single-threaded stepping: the acknowledged ops are exactly those before the one in flight
+      let n := match g.infl with
+        | some i => i
+        | none => match g.acked.getLast? with | some m => m + 1 | none => 0
+      let a := expectedAfter ops ok n
+      let dA := diffState tables a got
+      let b : Option Diff := match g.infl with
+        | some i => if isCommitPoint ops i
+            then some (diffState tables (expectedAfter ops (ok.set i true) (i + 1)) got) else none
+        | none => none
+      match crit with
+      | "crash01" =>
+        let okB := match b with | some dB => dB.lost.isEmpty | none => false
+        if dA.lost.isEmpty || okB then none else some s!"k={g.k} lost={dA.lost}"
+      | "crash02" =>
+        let okB := match b with | some dB => dB.extra.isEmpty && subList dB.lost dA.lost | none => false
+        if dA.extra.isEmpty || okB then none else some s!"k={g.k} extra={dA.extra}"
+      | "crash08" =>
+        if g.again != "same" then some s!"k={g.k} again={g.again}"
+        else if g.probe != "ok" then some s!"k={g.k} probe={g.probe}"
+        else none
+      | _ => some "bad-criterion"
+
+/-! Region features of a workload prefix (ops with index ≤ p), used to attribute failures to listed findings. -/
+
+def isCkpt : Op → Bool
+  | .flush => true | .vacuum => true | _ => false
+
+/-- session `k` is open just before index `i` (begun, not finished) and has executed a statement. -/
+def sessionOpenAt (ops : List Op) (k i : Nat) : Bool :=
+  let st := (List.range i).foldl (fun (st : Bool × Bool) j =>
+    match ops[j]? with
+    | some (Op.sBegin k') => if k' = k then (true, false) else st
+    | some (Op.sDml k' _) => if k' = k then (st.1, true) else st
+    | some (Op.sCommit k') => if k' = k then (false, false) else st
+    | some (Op.sRollback k') => if k' = k then (false, false) else st
+    | some (Op.sDrop k') => if k' = k then (false, false) else st
+    | _ => st) (false, false)
+  st.1 && st.2
+
+def sessionsOf (ops : List Op) : List Nat :=
+  ops.filterMap (fun o => match o with | Op.sBegin k => some k | _ => none)
+
+/-- a checkpoint at some index ≤ p ran while a session with work was open -/
+def openTxnAtCkpt (ops : List Op) (p : Nat) : Bool :=
+  (List.range (p + 1)).any (fun f => match ops[f]? with
+    | some o => isCkpt o && (sessionsOf ops).any (fun k => sessionOpenAt ops k f)
+    | none => false)
+
+def hasVacuumUpTo (ops : List Op) (p : Nat) : Bool :=
+  (List.range (p + 1)).any (fun i => ops[i]? == some Op.vacuum)
+
+def hasDropUpTo (ops : List Op) (p : Nat) : Bool :=
+  (List.range (p + 1)).any (fun i => match ops[i]? with
+    | some (Op.auto (.drp _)) => true | some (Op.sDml _ (.drp _)) => true | _ => false)
+
+/-- a rolled-back (or dropped) session containing UPDATE or DELETE, finished at an index ≤ p -/
+def rolledBackUpdDelUpTo (ops : List Op) (p : Nat) : Bool :=
+  (List.range (p + 1)).any (fun i => match ops[i]? with
+    | some (Op.sRollback k) | some (Op.sDrop k) =>
+      (List.range i).any (fun j => match ops[j]? with
+        | some (Op.sDml k' (.upd _ _ _)) => k' == k
+        | some (Op.sDml k' (.del _ _)) => k' == k
+        | _ => false)
+    | _ => false)
+
+/-- no checkpoint has been acknowledged yet: the log reaches back to the creation of the tables -/
+def noCkptYet (ops : List Op) (acked : List Nat) : Bool :=
+  !(acked.any (fun i => match ops[i]? with | some o => isCkpt o | none => false))
+
+def lastIndex (g : Group) : Nat :=
+  let m := g.acked.foldl max 0
+  match g.infl with | some i => max m i | none => m
+
+/-- Region tolerances for listed findings (DESIGN §4.2): with the flag on, the judge accepts whatever is observed at
+    crash points inside the named region, and nothing else. -/
+def judgeGroup (crit : String) (tol : Tol) (ops : List Op) (ok : List Bool) (tables : List String) (g : Group) : Option String :=
+  match judgeGroup0 crit ops ok tables g with
+  | none => none
+  | some why =>
+    let kind := inflKind ops g
+    let p := lastIndex g
+    -- checkpoint not crash-atomic: from the first page write of a checkpoint until its log truncation the stable
+    -- image is neither the old nor the new checkpoint (logical redo needs exactly one of them)
+    let torn := (kind == "flush" ∨ kind == "vacuum") ∧ 1 ≤ countChar 'D' g.phDone ∧ countChar 't' g.phDone = 0
+    if tol.has "ckptNotAtomic" ∧ torn then none
+    else if tol.has "ckptWithOpenTxn" ∧ openTxnAtCkpt ops p then none
+    else if tol.has "vacuumThenCrash" ∧ hasVacuumUpTo ops p then none
+    else if tol.has "dropTableRecovery" ∧ hasDropUpTo ops p then none
+    else if tol.has "rolledBackUpdDel" ∧ rolledBackUpdDelUpTo ops p then none
+    else if tol.has "logReachesCreation" ∧ noCkptYet ops g.acked then none
+    else some s!"{why} during={kind} ph={g.phDone}/{g.phAll}"
+
+/-! ### rule R1 on the real I/O trace
+
+`trace=CCD(0Ll)0+(1LlDDDDtLl)1+…` : `(i` / `)i+` = call / successful return of op `i`, `L`/`l` = log write / log fsync.
+Within the window of a commit point the first log write is read as "COMMIT appended", every log fsync as a force,
+the return as the acknowledgement; `checkR1` (whose soundness is `acked_commit_is_durable`) must accept. -/
+
+def takeDigits : List Char → List Char × List Char
+  | c :: cs => if c.isDigit then let (d, r) := takeDigits cs; (c :: d, r) else ([], c :: cs)
+  | [] => ([], [])
+
+def traceEvents (ops : List Op) : Nat → List Char → Option Nat → Bool → List Ev
+  | 0, _, _, _ => []
+  | _, [], _, _ => []
+  | fuel + 1, c :: cs, cur, appendedYet =>
+    if c == '(' then
+      let (d, r) := takeDigits cs
+      traceEvents ops fuel r (String.ofList d).toNat? false
+    else if c == ')' then
+      let (d, r) := takeDigits cs
+      let i := (String.ofList d).toNat?
+      match r with
+      | '+' :: r' =>
+        let evs := match i with
+          | some i => if isCommitPoint ops i then
+              (if appendedYet then [] else [Ev.append (.commit i)]) ++ [Ev.ack i] else []
+          | none => []
+        evs ++ traceEvents ops fuel r' none false
+      | _ :: r' => traceEvents ops fuel r' none false
+      | [] => []
+    else if c == 'L' then
+      match cur with
+      | some i => if isCommitPoint ops i ∧ !appendedYet then Ev.append (.commit i) :: traceEvents ops fuel cs cur true
+                  else traceEvents ops fuel cs cur appendedYet
+      | none => traceEvents ops fuel cs cur appendedYet
+    else if c == 'l' then Ev.force :: traceEvents ops fuel cs cur appendedYet
+    else traceEvents ops fuel cs cur appendedYet
+
+def traceOfObs (obs : String) : Option String :=
+  match obs.splitOn " ## " with
+  | [_, diag] => field (words diag) "trace"
+  | _ => none
+
+def crash (flags : List String) (line : String) : String :=
+  match line.trimAscii.toString.splitOn " ==> " with
+  | [cs, obs] =>
+    match cs.splitOn " | " with
+    | [head, body] =>
+      let crit := (words head).headD ""
+      match parseOps body with
+      | none => "bad-op"
+      | some ops =>
+        let gating := (obs.splitOn " ## ").headD ""
+        if gating == "abort" ∨ gating == "hang" ∨ gating.startsWith "panic@" ∨ gating == "<no-output>" then
+          -- the whole case was lost: attributable only to a region feature of the whole workload
+          let n := ops.length
+          if (flags.contains "vacuumThenCrash" ∧ hasVacuumUpTo ops n) ∨ (flags.contains "dropTableRecovery" ∧ hasDropUpTo ops n)
+          then "ok" else s!"bad {gating}"
+        else
+        match gating.splitOn " | " with
+        | [] => "bad empty-observation"
+        | first :: groups =>
+          let fw := words first
+          match field fw "run", field fw "live" with
+          | some run, some live =>
+            let ok := (run.splitOn ",").map (· == "ok")
+            let tables := createdTables ops
+            let sortedTables := (tables.toArray.qsort (· < ·)).toList
+            let expectLive := render sortedTables (expectedAfter ops ok ops.length)
+            let tol : Tol := { flags := flags }
+            let liveProblem : List String :=
+              if live == expectLive ∨ (live == "-" ∧ expectLive == "") then []
+              else if tol.has "rolledBackUpdDel" ∧ rolledBackUpdDelUpTo ops ops.length then []
+              else [s!"live={live} expected={expectLive}"]
+            let problems := groups.filterMap (fun gs =>
+              match parseGroup gs with
+              | none => some "unparsable-group"
+              | some g => judgeGroup crit tol ops ok sortedTables g)
+            let r1Problem : List String :=
+              if crit == "crash01" then
+                match traceOfObs obs with
+                | some tr =>
+                  if checkR1 (traceEvents ops (tr.length + 1) tr.toList none false) then []
+                  else ["R1: a commit was acknowledged without a log force covering its COMMIT record"]
+                | none => ["R1: no I/O trace in the observation"]
+              else []
+            let all := liveProblem ++ r1Problem ++ problems
+            if all.isEmpty then "ok" else s!"bad {joinWith "; " (all.take 6)} (+{all.length - min all.length 6} more)"
+          | _, _ => "bad unparsable-observation"
+    | _ => "bad-op"
+  | _ => "bad-op"
 
 end AxVerif.Drivers
